@@ -350,6 +350,8 @@ def oracle_c01(case, impl_out):
             for g, x in zip(groups, scores):
                 if x not in by.get(fs(g), [x]):
                     return "a ranked group does not carry the score it left the competition with"
+    if any(a < b for a, b in zip(scores, scores[1:])):
+        return "ranking is not in non-increasing score order"
     if len(qvals) != len(groups):
         return (f"{len(groups)} groups were ranked but {len(qvals)} q-values were computed: "
                 f"the groups from rank {min(len(qvals), len(groups))} on have no q-value")
